@@ -32,9 +32,9 @@ def leaf_gen(pkg_keys):
     return leaf
 
 
-def gen_table(ctx: Ctx):
+def gen_table(ctx: Ctx, keys=None):
     rng = ctx.rng
-    keys = [f"{n}P" for n in rng.sample(range(1, 60), rng.randint(3, 8))]
+    keys = keys or [f"{n}P" for n in rng.sample(range(1, 60), rng.randint(3, 8))]
     table = {}
     for k in keys:
         if rng.random() < 0.12:
@@ -62,7 +62,7 @@ def substituted(e, table, st, packages=True, times=True) -> str:
 
 def run(ctx: Ctx) -> None:
     ctx.rule = ("package tables with 3-8 entries (bodies from the expression generator, containing packages and UB keys, some unresolvable); expressions with "
-                "abbreviations at random positions (repeated, adjacent, root), condition and multi-part AHB expressions; distinct = (table, string)")
+                "abbreviations at random positions (repeated, adjacent, root), condition and multi-part AHB expressions; a third of the tables re-resolve the previous table's strings (same text, other bodies); distinct = (table, string)")
     ctx.coverage["generated_changed"] = extract.regenerate(["CharClasses", "Grammar"])
     ok = ctx.lean_build(MODULES)
     drv = ctx.lean_build_driver()
@@ -73,25 +73,34 @@ def run(ctx: Ctx) -> None:
     evalenv.configure_cer_based()
     rng = ctx.rng
     rows = []
+    prev = None  # (keys, specs) of the previous table: a third of the tables re-resolve the SAME strings under a different table
+    history = {}
     for _ in range(ctx.pick(60, 500)):
-        keys, table = gen_table(ctx)
+        reuse = prev is not None and rng.random() < 0.35
+        keys, table = gen_table(ctx, prev[0] if reuse else None)
         evalenv.set_cer(evalenv.make_cer(packages={k: v for k, v in table.items() if v is not None}))
-        for _ in range(ctx.pick(10, 25)):
-            n_parts = rng.choice([0, 0, 0, 1, 2, 3])
-            exprs = [T.rand_expr(rng, rng.randint(1, 7), leaf_gen(keys)) for _ in range(max(1, n_parts))]
-            st = T.Style(rng, rng.choice(["min", "rand"]), "rand", rng.choice(["one", "rand", "none"]))
-            texts = [T.render(e, st).strip(" \t\n\r\f") for e in exprs]
+        specs = prev[1] if reuse else []
+        if not reuse:
+            for _ in range(ctx.pick(10, 25)):
+                n_parts = rng.choice([0, 0, 0, 1, 2, 3])
+                exprs = [T.rand_expr(rng, rng.randint(1, 7), leaf_gen(keys)) for _ in range(max(1, n_parts))]
+                st = T.Style(rng, rng.choice(["min", "rand"]), "rand", rng.choice(["one", "rand", "none"]))
+                texts = [T.render(e, st).strip(" \t\n\r\f") for e in exprs]
+                marks = [rng.choice(MARKS) for _ in exprs]
+                s = texts[0] if n_parts == 0 else "".join(m + " " + t + " " for m, t in zip(marks, texts)).strip()
+                specs.append((n_parts, exprs, st, marks, s, rng.choice(["both", "both", "both", "packages", "times"])))
+        prev = (keys, specs)
+        ctx.count("table", "same strings as under the previous table" if reuse else "new strings")
+        for n_parts, exprs, st, marks, s, mode in specs:
             used = {l[1] for e in exprs for l in T.leaves(e) if l[0] == "pkg"}
             unknown = any(table[k] is None for k in used)
-            mode = rng.choice(["both", "both", "both", "packages", "times"])
             rp, rt = mode in ("both", "packages"), mode in ("both", "times")
             if n_parts == 0:
-                s = texts[0]
                 s_sub = None if (unknown and rp) else substituted(exprs[0], table, st, rp, rt)
             else:
-                marks = [rng.choice(MARKS) for _ in exprs]
-                s = "".join(m + " " + t + " " for m, t in zip(marks, texts)).strip()
                 s_sub = None if (unknown and rp) else "".join(m + " " + substituted(e, table, st, rp, rt).strip(" \t\n\r\f") + " " for m, e in zip(marks, exprs)).strip()
+            before = list(history.get((s, mode), []))
+            history.setdefault((s, mode), []).append(table)
             ctx.case((sorted(table.items(), key=str), s, mode), nontrivial=bool(used) or any(l[0] == "time" for e in exprs for l in T.leaves(e)))
             ctx.count("mode", mode)
             ctx.count("kind", "ahb" if n_parts else "cond")
@@ -102,7 +111,7 @@ def run(ctx: Ctx) -> None:
             if unknown and rp:
                 ctx.count("outcome", "unknown-package")
                 if got.get("err") != "other:NotImplementedError":
-                    ctx.violation("a package unknown to the resolver does not abort with NotImplementedError", {"s": s, "table": table, "got": row["impl"]}, key=f"unknown:{s}")
+                    ctx.violation("a package unknown to the resolver does not abort with NotImplementedError", {"s": s, "table": table, "got": row["impl"], "same_string_resolved_before_under": before}, key=f"unknown:{s}")
                 continue
             if "err" in got:
                 ctx.count("outcome", got["err"])
@@ -115,7 +124,8 @@ def run(ctx: Ctx) -> None:
                 continue
             if got["shape"] != want["shape"]:
                 ctx.violation("resolved tree differs from the parse of the textually substituted expression",
-                              {"s": s, "table": table, "resolve_packages": rp, "replace_time_conditions": rt, "substituted": s_sub, "resolved": got["shape"], "expected": want["shape"]},
+                              {"s": s, "table": table, "resolve_packages": rp, "replace_time_conditions": rt, "substituted": s_sub, "resolved": got["shape"], "expected": want["shape"],
+                               "same_string_resolved_before_under": before},
                               key=f"subst:{s}:{mode}")
     for row in rows[:: max(1, len(rows) // 5)][:5]:
         ctx.sample({"s": row["s"], "table": row["table"], "resolved": row["impl"]})
@@ -170,6 +180,9 @@ def run(ctx: Ctx) -> None:
 def replay(ctx: Ctx, data) -> int:
     evalenv.configure_cer_based()
     r = data["replay"]
+    for earlier in r.get("same_string_resolved_before_under", []):
+        evalenv.set_cer(evalenv.make_cer(packages={k: v for k, v in earlier.items() if v is not None}))
+        P.resolve(r["s"], resolve_packages=r.get("resolve_packages", True), replace_time_conditions=r.get("replace_time_conditions", True))
     evalenv.set_cer(evalenv.make_cer(packages={k: v for k, v in r["table"].items() if v is not None}))
     got = P.resolve(r["s"], resolve_packages=r.get("resolve_packages", True), replace_time_conditions=r.get("replace_time_conditions", True))
     want = P.resolve(r["substituted"], resolve_packages=False, replace_time_conditions=False) if r.get("substituted") else {}
